@@ -81,51 +81,56 @@ inductive Out where
   | fuel
   deriving DecidableEq
 
+/-- Progress measure of the automaton: every successful call consumes input or pops a frame (a call that pushes
+frames consumes at least as many characters). -/
+def mu (stack : List PS) (cur : List Char) : Nat := 3 * cur.length + stack.length
+
 /-- `parse_recognize_with` over `ParseIterator`: at `Incomplete` the final-segment parser takes over (only from the
-stacks `[Init]` / `[AfterAttr]`, otherwise a syntax error); when the iterator ends, `try_flush`. -/
-def oneFrom : Nat → List PS → MSt → List Char → Out
-  | 0, _, _, _ => .fuel
-  | fuel + 1, stack, m, inp =>
-    match istep stack inp with
-    | .fin => (match m.flush with | some v => .value v | none => .err)
-    | .ok evs _ stack' rest =>
+stacks `[Init]` / `[AfterAttr]`, otherwise a syntax error); when the iterator ends, `try_flush`.
+(`fuel` = a call that made no progress: the loop would not terminate; never observed.) -/
+def oneFrom (stack : List PS) (m : MSt) (inp : List Char) : Out :=
+  match istep stack inp with
+  | .fin => (match m.flush with | some v => .value v | none => .err)
+  | .ok evs _ stack' rest =>
+    if mu stack' rest < mu stack inp then
       (match feedAll m evs with
-       | (m', none) => oneFrom fuel stack' m' rest
+       | (m', none) => oneFrom stack' m' rest
        | (_, some (some v)) => .value v
        | (_, some none) => .err)
-    | .inc =>
-      (match finalStep stack inp with
-       | .ok evs _ _ _ =>
-         (match feedAll m evs with
-          | (m', none) => (match m'.flush with | some v => .value v | none => .err)
-          | (_, some (some v)) => .value v
-          | (_, some none) => .err)
-       | .panic => .panic
-       | _ => .err)
-    | .err => .err
-    | .panic => .panic
-
-def fuelFor (inp : List Char) : Nat := 3 * inp.length + 8
+    else .fuel
+  | .inc =>
+    (match finalStep stack inp with
+     | .ok evs _ _ _ =>
+       (match feedAll m evs with
+        | (m', none) => (match m'.flush with | some v => .value v | none => .err)
+        | (_, some (some v)) => .value v
+        | (_, some none) => .err)
+     | .panic => .panic
+     | _ => .err)
+  | .err => .err
+  | .panic => .panic
+termination_by mu stack inp
 
 /-- `parse_recognize::<Value>(text, false)`. -/
-def parseOne (inp : List Char) : Out := oneFrom (fuelFor inp) [.init] {} inp
+def parseOne (inp : List Char) : Out := oneFrom [.init] {} inp
 
 /-! ## `RecognizerDecoder` -/
 
 /-- `decode_inner` on the available text: parser stack, recognizer, what is left unconsumed, outcome. -/
-def decodeInner : Nat → List PS → MSt → List Char → List PS × MSt × List Char × Out
-  | 0, stack, m, cur => (stack, m, cur, .fuel)
-  | fuel + 1, stack, m, cur =>
-    match istep stack cur with
-    | .ok evs _ stack' rest =>
+def decodeInner (stack : List PS) (m : MSt) (cur : List Char) : List PS × MSt × List Char × Out :=
+  match istep stack cur with
+  | .ok evs _ stack' rest =>
+    if mu stack' rest < mu stack cur then
       (match feedAll m evs with
-       | (m', none) => decodeInner fuel stack' m' rest
+       | (m', none) => decodeInner stack' m' rest
        | (m', some (some v)) => (stack', m', rest, .value v)
        | (m', some none) => (stack', m', rest, .err))
-    | .fin => (match m.flush with | some v => (stack, m, cur, .value v) | none => (stack, m, cur, .err))
-    | .inc => (stack, m, cur, .none)
-    | .err => (stack, m, cur, .err)
-    | .panic => (stack, m, cur, .panic)
+    else (stack, m, cur, .fuel)
+  | .fin => (match m.flush with | some v => (stack, m, cur, .value v) | none => (stack, m, cur, .err))
+  | .inc => (stack, m, cur, .none)
+  | .err => (stack, m, cur, .err)
+  | .panic => (stack, m, cur, .panic)
+termination_by mu stack cur
 
 /-- The decoder between calls: parser stack and recognizer (the `LocationTracker` only serves error messages). -/
 structure Raw where
@@ -135,7 +140,7 @@ structure Raw where
 /-- `decode` on the text available in the buffer: new decoder, what stays in the buffer, outcome.  Anything but
 "need more" resets the decoder; an error leaves the buffer as it was. -/
 def Raw.decode (d : Raw) (avail : List Char) : Raw × List Char × Out :=
-  match decodeInner (fuelFor avail) d.stack d.m avail with
+  match decodeInner d.stack d.m avail with
   | (st, m, rest, .none) => ({ stack := st, m := m }, rest, .none)
   | (_, _, rest, .value v) => ({}, rest, .value v)
   | (_, _, _, o) => ({}, avail, o)
@@ -149,7 +154,7 @@ def hasFinal (stack : List PS) : Bool :=
 
 /-- `decode_eof` on the text available in the buffer (`bufEmpty` = the byte buffer was empty). -/
 def Raw.decodeEof (d : Raw) (avail : List Char) (bufEmpty : Bool) : List Char × Out :=
-  match decodeInner (fuelFor avail) d.stack d.m avail with
+  match decodeInner d.stack d.m avail with
   | (_, _, rest, .value v) => (rest, .value v)
   | (st, m, rem, .none) =>
     -- `final_parser_and_reset` + `feed_final`
